@@ -41,7 +41,7 @@ func inside(snap string) string {
 
 func corrBpfs(seed uint64, tier string, replay []string) *lib.Result {
 	res := &lib.Result{Property: "C10",
-		Rule: "random histories through BasePathFS(MemFS, B) with B = /qb given under the spellings /qb, /qb/, //qb, /qb/., /other/../qb, /qb// in turn, in lockstep with a standalone MemFS holding the same content at its root: operands from the standalone tree plus escape attempts ('/..', '../..', relative paths before and after Chdir, the base's own prefix, unclean forms); after every call: outcomes equal, the virtual tree equals the standalone tree, everything OUTSIDE /qb in the base is unchanged, no error or returned path reveals /qb; operations on the root itself included (for a failing Rename that involves the root only the failure is compared); Sub with escaping / relative directories followed by calls through the returned view; then the bounded-exhaustive scenarios namespace, file-admin and dir-handle of small.go (every sequence of ≤ 2 / 2 / 4 calls; thorough one more) in the same lockstep; a case is one call; distinct non-trivial = distinct (call kind, outcome, path form)"}
+		Rule: "random histories through BasePathFS(MemFS, B) with B = /qb given under the spellings /qb, /qb/, //qb, /qb/., /other/../qb, /qb// in turn, in lockstep with a standalone MemFS holding the same content at its root: operands from the standalone tree plus escape attempts ('/..', '../..', relative paths before and after Chdir, the base's own prefix, unclean forms); after every call: outcomes equal, the virtual tree equals the standalone tree, everything OUTSIDE /qb in the base is unchanged, no error or returned path reveals /qb; operations on the root itself included (for a failing Rename that involves the root only the failure is compared); Sub with escaping / relative directories followed by calls through the returned view; then the bounded-exhaustive scenarios namespace, file-admin and dir-handle of small.go (every sequence of ≤ 2 / 2 / 4 calls; thorough one more) in the same lockstep, every fifth followed by WalkDir / Glob / Exists on the root, on missing and escaping roots (results and the paths inside callback errors must be virtual); a case is one call; distinct non-trivial = distinct (call kind, outcome, path form)"}
 	st := lib.NewStats()
 	nh, nl := 150, 40
 	if tier == "thorough" {
@@ -56,6 +56,19 @@ func corrBpfs(seed uint64, tier string, replay []string) *lib.Result {
 			sh, _ := smallHistoriesDepth(tier, scn, -1)
 			scripts = append(scripts, sh...)
 		}
+	}
+	// enumeration helpers through the wrapper (visited paths, results and the paths inside the errors handed to the callback
+	// and returned must all be virtual): on the root, on a missing root (absolute, relative, escaping), on a file
+	epilogue := lib.History{"fs 0 walk " + lib.Hex("/") + " -", "fs 0 walk " + lib.Hex("/missing") + " -", "fs 0 walk " + lib.Hex("missing") + " c",
+		"fs 0 walk " + lib.Hex("/../../secret") + " -", "fs 0 glob " + lib.Hex("/*"), "fs 0 glob " + lib.Hex("/*/*"), "fs 0 glob " + lib.Hex("/../*"),
+		"fs 0 walk " + lib.Hex("/tmp") + " c,d", "fs 0 exists " + lib.Hex("/../secret"), "fs 0 direxists " + lib.Hex("/..")}
+	if replay == nil {
+		for i := range scripts {
+			if i%5 == 0 {
+				scripts[i] = append(append(lib.History{}, scripts[i][:len(scripts[i])-1]...), append(epilogue, scripts[i][len(scripts[i])-1])...)
+			}
+		}
+		scripts = append(scripts, append(append(lib.History{"fs new"}, epilogue...), "fs 0 dump"))
 	}
 	for k := 0; k < nh+len(scripts); k++ {
 		var script lib.History
